@@ -28,7 +28,7 @@ ASSUMPTIONS = ["lattice without self-loops, all edge ends < n_vertices; u, J arb
                "colour indices within range of J (numpy raises IndexError otherwise)"]
 
 SJ = 64
-VMAX = {"quick": 130, "thorough": 420}
+VMAX = {"quick": 130, "thorough": 320}
 
 
 def ser_ham(V, edges, col, u, Jz):
